@@ -358,11 +358,31 @@ func countScopeLabels(c Case, ls []string) {
 			scopeCount[l]++
 		}
 	}
+	countScale(c)
 	if scopeTotal%500 == 0 {
 		out := map[string]float64{}
 		for k, v := range scopeCount {
 			out[k] = float64(int(float64(v)*100000/float64(scopeTotal))) / 10
 		}
 		core.SetExtra("name_binding_classes_per_10000_cases", out)
+		sc := map[string]int{}
+		for k, v := range scaleCount {
+			sc[k] = v
+		}
+		core.SetExtra("scale_cases_of_this_shard", sc)
+	}
+}
+
+// scale classes: absolute numbers of cases (of the shard that reports last)
+var scaleCount = map[string]int{}
+
+func countScale(c Case) {
+	if c.Scale == nil {
+		return
+	}
+	scaleCount["scale:"+c.Scale.What+":"+x.ScaleBucket(c.Scale.N)]++
+	scaleCount["scale:any"]++
+	if c.Scale.Ctx != "" {
+		scaleCount["scale:depth:ctx="+c.Scale.Ctx]++
 	}
 }
